@@ -60,6 +60,11 @@ func genC10(g *gen, seed int64) *Program {
 			r.Client = []Op{{K: "send", Msg: g.msg()}, {K: "mutmd"}, {K: "send", Msg: g.msg()}, {K: "closesend"}, {K: "recvall"}}
 			r.Handler = []Op{{K: "recv"}, {K: "readmd"}, {K: "recv"}, {K: "readmd"}, {K: "recvall"}, {K: "readmd"}, {K: "send", Msg: g.msg()}, {K: "return"}}
 		}
+		if g.p(0.4) {
+			// the handler scribbles over its incoming metadata at some point
+			pos := 1 + g.pick(len(r.Handler)-1)
+			r.Handler = append(r.Handler[:pos], append([]Op{{K: "hmutmd"}}, r.Handler[pos:]...)...)
+		}
 		if !g.p(0.7) {
 			// without the caller's mutation
 			var c []Op
@@ -159,6 +164,23 @@ func oracleC10extra(s *Sim) {
 		}
 		if v.rs.nestedIn != nil {
 			s.stats.Probes["c10-nested-handler-entered"]++
+		}
+		// the other direction: the handler's writes to its incoming metadata
+		// never reach the caller's own metadata object
+		callerMutated := false
+		for _, ev := range v.ev {
+			if ev.Op == "mutmd" {
+				callerMutated = true
+			}
+		}
+		for _, ev := range v.ev {
+			if ev.Op != "outmd-at-end" || callerMutated {
+				continue
+			}
+			want := kvToMD(v.r.OutMD)
+			if _, leaked := ev.MD["handler-added-later"]; leaked || mdString(ev.MD) != mdString(want) {
+				v.fail("C10", "handler-metadata-mutation-visible", "the caller's outgoing metadata object is %s at the end of the call, it attached %s: the handler's writes to its incoming metadata reached the caller", mdString(ev.MD), mdString(want))
+			}
 		}
 	}
 }
